@@ -732,7 +732,7 @@ func (in *interpreter) toNative(fr *frame, v value, depth int) interface{} {
 				}
 			}
 		}
-		if tm, ok := x.v.(*Term); ok && in.path != nil && tm.Op != OpConst && tm.W > 1 && tm.Hi < 1<<62 && tm.Hi-tm.Lo <= 255 {
+		if tm, ok := x.v.(*Term); ok && in.path != nil && tm.Op != OpConst && tm.W > 1 && tm.Hi < 1<<62 && tm.Hi-tm.Lo <= 15 {
 			// a symbolic integer with a small range of values: format each value on its own path
 			if bt, ok := x.t.Underlying().(*types.Basic); ok && bt.Info()&types.IsInteger != 0 {
 				v := in.path.Concretize(tm)
